@@ -36,7 +36,7 @@ m = {
     "hooks": {
         "guard": "verif",
         "enable": "go build -tags verif; /verif/go.mod replaces github.com/cockroachdb/apd/v3 by /repo, so every check compiles /repo's working tree with the hooks on",
-        "baseline_off_cmd": "cd /repo && go test -vet=off -count=1 ./...",
+        "baseline_off_cmd": "cd /repo && GOFLAGS=-mod=mod GOPROXY=off GOSUMDB=off go test -vet=off -count=1 ./...",
         "source_commits": HOOK_COMMITS,
         "add_only": True,
     },
